@@ -164,6 +164,61 @@ def _mphys_model(sc, emitted):
     return prob, dicts, "mux." + Fa
 
 
+def _mixed_span_job(k):
+    """One point that mixes a half-span (left- or right-hand) symmetric surface with a full-span surface whose spanwise
+    stations are not mirror-symmetric: the results do not depend on the order of the list, and equal those of the model in which
+    the symmetric surface is given in full (symmetric flow)."""
+    rng = np.random.default_rng(seed() * 89 + k)
+    side = "R" if k % 2 == 0 else "L"
+    nyf = 2 * int(rng.integers(2, 4)) + 1
+    wing_full = B.full_mesh(2 + k % 2, nyf, ["swept", "tapered", "all"][k % 3], span=10.0, chord=1.5)
+    wing_half = B.half_of(wing_full, side)
+    nt = 2 * int(rng.integers(1, 4)) + 1
+    tail = B.full_mesh(2, nt, "tapered", span=4.0, chord=0.8, off=(0.0, 0.0, 0.0))
+    # mirror-symmetric planform, spanwise stations NOT mirror images of each other (interior nodes moved along the span)
+    t_new = np.sort(np.concatenate([[-2.0, 2.0], rng.uniform(-1.8, 1.8, nt - 2)]))
+    tl = np.zeros_like(tail)
+    for i in range(tail.shape[0]):
+        for c in range(3):
+            tl[i, :, c] = np.interp(t_new, tail[i, :, 1], tail[i, :, c])
+    tl[:, :, 0] += 6.0
+    tl[:, :, 2] += 0.7
+    flow = dict(alpha=float(rng.uniform(2, 7)), beta=0.0, v=60.0, rho=1.0, Mach_number=0.2, re=1e6, cg=[1.0, 0.0, 0.1])
+    sw = dict(name="wing", nx=wing_half.shape[0], ny=wing_half.shape[1], sym=True, side=side, visc=True)
+    swf = dict(name="wing", nx=wing_full.shape[0], ny=wing_full.shape[1], sym=False, side="F", visc=True)
+    st = dict(name="tail", nx=2, ny=nt, sym=False, side="F", visc=bool(k % 2))
+
+    def obs(surfs, meshes):
+        m = B.AeroModel(surfs, flow=flow, meshes=meshes, rng=np.random.default_rng(1))
+        m.run()
+        p = m.prob
+        o = {"CL": p.get_val("aero.CL"), "CD": p.get_val("aero.CD"), "M": p.get_val("aero.total_perf.moment.M"), "tL": p.get_val("aero.total_perf.L"), "tD": p.get_val("aero.total_perf.D")}
+        for n in ("wing", "tail"):
+            o[n + ".CL"] = p.get_val("aero.%s_perf.CL" % n)
+            o[n + ".CD"] = p.get_val("aero.%s_perf.CD" % n)
+        o["tail.sec_forces"] = p.get_val("aero.aero_states.tail_sec_forces")
+        return {kk: np.array(v, dtype=float).copy() for kk, v in o.items()}
+
+    ts = tail.copy()  # the mirror-symmetric discretisation of the same tail
+    ts[:, :, 0] += 6.0
+    ts[:, :, 2] += 0.7
+    a = obs([sw, st], [wing_half, tl])
+    b = obs([st, sw], [tl, wing_half])
+    # half == full needs a mirror-symmetric problem (an asymmetric discretisation of the tail gives a slightly asymmetric flow,
+    # which the full-span wing follows and the half-span model cannot): compared on the symmetric discretisation, both orders
+    a2 = obs([sw, st], [wing_half, ts])
+    b2 = obs([st, sw], [ts, wing_half])
+    f = obs([swf, st], [wing_full, ts])
+    bad = []
+    for tag, x, y in (("order", a, b), ("order", a2, b2), ("half_vs_full", a2, f)):
+        for kk in y:
+            sc = max(float(np.max(np.abs(y[kk]))), 1e-9 * float(np.max(np.abs(y["tL"]))) if kk in ("M", "tail.sec_forces") else 1e-12)
+            e = float(np.max(np.abs(x[kk] - y[kk]))) / sc
+            if not (e <= 1e-9):
+                bad.append(("mixed_span:%s:%s" % (tag, kk.split(".")[-1]), {"var": kk, "rel_err": e, "side": side}))
+    return {"k": k, "bad": bad, "case": {"side": side, "wing_ny": int(wing_half.shape[1]), "tail_ny": nt}}
+
+
 def _mux_scope_job(k):
     """The force multiplexer inside a group that has its own linear solver, with some surfaces' forces produced inside the
     group and the others prescribed from outside (the framework then asks the matrix-free product for a SUBSET of the
@@ -333,6 +388,11 @@ def run(tier, only=None):
         R.case(["faraway", r["k"]], True, sample={"faraway_errors_per_decade": r["errs"]} if r["k"] == 0 else None, section="faraway")
         for sig, p in r["bad"]:
             R.violation(sig, {"k": r["k"], "detail": p, "kind": "faraway"})
+    for r in check_exc(pmap(_mixed_span_job, range(12 if tier == "quick" else 96))):
+        R.replayed += 1
+        R.case(["mixed_span", r["k"]], True, sample=r["case"] if r["k"] % 5 == 0 else None, section="mixed_span")
+        for sig, p in r["bad"]:
+            R.violation(sig, {"k": r["k"], "case": r["case"], "detail": p, "kind": "mixed_span"})
     for r in check_exc(pmap(_mux_scope_job, range(16 if tier == "quick" else 96))):
         R.case(["mux_scope", r["k"]], True, sample=r["case"] if r["k"] % 5 == 0 else None, section="mphys")
         for sig, p in r["bad"]:
